@@ -10,6 +10,11 @@ Straight current segment (`current_polyline_Hfield`, one row): div H = 0 at ever
 carrier line, for every placement of the segment (`segment_div_free`; canonical placement on the
 z-axis with the explicit azimuthal closed form: `segmentH_canonical_eq`, `segment_div_free_canonical`).
 Curl-freeness is NOT claimed for a segment: the field of an open finite segment is not curl-free.
+Cuboid (`magnet_cuboid_Bfield` port `cuboidB`, and the `BHJM_magnet_cuboid` row `bhjmCuboid`): all nine
+partial derivatives exist at every observer off the six face planes (inside and outside, every octant),
+with an explicit Jacobian (`cuboid_partials`), and div B = 0, curl H = 0 (also div H = 0, curl B = 0)
+there (`cuboid_div_free`, `cuboid_H_curl_free`, `cuboid_div_curl_free`, `cuboid_curl_free_outside`,
+`cuboid_wrapper_div_curl_free`; Lemmas/CuboidDiv.lean).
 /- FULL: zero flux of B through every closed surface and circulation of H = linked current for
    every loop, all classes.  Needs C01 for every class plus Gauss/Stokes for general surfaces;
    not shown by theorem.  The flux/circulation quadrature oracle checks boxes and loops of sizes
@@ -19,6 +24,8 @@ import MagpyVerif.Lemmas.KernReal
 import MagpyVerif.Lemmas.DipoleCalc
 import MagpyVerif.Props.C13
 import MagpyVerif.Lemmas.SegmentDiv
+import MagpyVerif.Lemmas.CuboidDiv
+import MagpyVerif.Props.C01
 namespace MagpyVerif.C14
 open MagpyVerif MagpyVerif.Kern
 
@@ -337,5 +344,184 @@ example : DivFreeAt (segmentH 2 (⟨1, 2, 3⟩ : V3 ℝ) ⟨-1, 0, 5⟩) ⟨4, 4
   segment_div_free 2 _ _ 4 4 4 (by simp [SegBS.nsq, V3.cross]; norm_num)
 example : DivFreeAt (fun q => vs mu0R (segmentH 2 (⟨1, 2, 3⟩ : V3 ℝ) ⟨-1, 0, 5⟩ q)) ⟨4, 4, 4⟩ :=
   segment_B_div_free 2 _ _ _ (by simp [SegBS.nsq, V3.cross]; norm_num)
+
+/-! ### local forms of the two laws: Cuboid
+
+`cuboidB` is the port of `magnet_cuboid_Bfield` (reflection into the bottom-Q4 octant, eight corner
+distances, arctan2 sums, log differences, `qsigns`).  By C01 (`cuboid_is_coulomb_integral`) it equals,
+on the open set off the six face planes, the six-face surface-charge field plus `J` inside; every face
+field is a mixed second difference over the face's corners of `arctan(uv/(wr))`, `log(r − v)`,
+`log(r − u)` (Lemmas/CuboidCoulomb.lean).  Lemmas/CuboidDiv.lean differentiates these corner
+functions: corner by corner the divergence is `u/(u²+w²) + v/(v²+w²)` and the curl components are
+`−w/(v²+w²)`, `w/(u²+w²)`, `0`, all annihilated by the second difference.  The arctan2 branch
+corrections (±π) and the interior term are locally constant off the face planes. -/
+
+open MagpyVerif.CuboidDiv in
+/-- C14 (Cuboid, local form of the flux law).  For positive side lengths, every polarization and
+every observer off the six (infinitely extended) face planes — strictly inside the magnet or anywhere
+outside, in any octant — the three partial derivatives ∂Bx/∂x, ∂By/∂y, ∂Bz/∂z of the model of
+`magnet_cuboid_Bfield` exist and add up to zero: div B = 0. -/
+theorem cuboid_div_free (dim pol : V3 ℝ) (x y z : ℝ) (hdx : 0 < dim.x) (hdy : 0 < dim.y) (hdz : 0 < dim.z)
+    (hx : |x| ≠ dim.x / 2) (hy : |y| ≠ dim.y / 2) (hz : |z| ≠ dim.z / 2) :
+    ∃ dxx dyy dzz : ℝ,
+      HasDerivAt (fun t => (cuboidB dim pol ⟨t, y, z⟩).x) dxx x ∧
+      HasDerivAt (fun t => (cuboidB dim pol ⟨x, t, z⟩).y) dyy y ∧
+      HasDerivAt (fun t => (cuboidB dim pol ⟨x, y, t⟩).z) dzz z ∧
+      dxx + dyy + dzz = 0 :=
+  (cuboidB_dcfree dim pol ⟨x, y, z⟩ hdx hdy hdz (offP_of_abs hdx hdy hdz hx hy hz)).divFreeAt
+
+/-- the same with Mathlib's `deriv` -/
+theorem cuboid_div_free_deriv (dim pol : V3 ℝ) (x y z : ℝ) (hdx : 0 < dim.x) (hdy : 0 < dim.y) (hdz : 0 < dim.z)
+    (hx : |x| ≠ dim.x / 2) (hy : |y| ≠ dim.y / 2) (hz : |z| ≠ dim.z / 2) :
+    deriv (fun t => (cuboidB dim pol ⟨t, y, z⟩).x) x + deriv (fun t => (cuboidB dim pol ⟨x, t, z⟩).y) y
+      + deriv (fun t => (cuboidB dim pol ⟨x, y, t⟩).z) z = 0 := by
+  obtain ⟨a, b, c, ha, hb, hc, h⟩ := cuboid_div_free dim pol x y z hdx hdy hdz hx hy hz
+  rw [ha.deriv, hb.deriv, hc.deriv]
+  exact h
+
+-- non-vacuity: a 1×2×3 cuboid with a skew polarization; an observer that needs all three reflections
+-- of the code (x<0, y>0, z>0), one in the bottom-Q4 octant itself, one on a coordinate plane, one inside
+example : DivFreeAt (cuboidB (⟨1, 2, 3⟩ : V3 ℝ) ⟨1, -2, 3⟩) ⟨-3, 1 / 2, 5⟩ := by
+  apply cuboid_div_free <;> norm_num [abs_of_pos, abs_of_neg]
+example : DivFreeAt (cuboidB (⟨1, 2, 3⟩ : V3 ℝ) ⟨1, -2, 3⟩) ⟨3, -1 / 2, -5⟩ := by
+  apply cuboid_div_free <;> norm_num [abs_of_pos, abs_of_neg]
+example : DivFreeAt (cuboidB (⟨1, 2, 3⟩ : V3 ℝ) ⟨1, -2, 3⟩) ⟨0, 0, 4⟩ := by
+  apply cuboid_div_free <;> norm_num [abs_of_pos, abs_of_neg]
+example : DivFreeAt (cuboidB (⟨1, 2, 3⟩ : V3 ℝ) ⟨1, -2, 3⟩) ⟨1 / 4, 1 / 3, -1 / 4⟩ := by
+  apply cuboid_div_free <;> norm_num [abs_of_pos, abs_of_neg]
+
+open MagpyVerif.CuboidDiv in
+/-- C14 (Cuboid): the full Jacobian.  Off the six face planes the model of `magnet_cuboid_Bfield` has all
+nine partial derivatives, given by `coulombJac`: the sum over the six faces, weighted with the surface
+charge `±J·n`, of the mixed second differences over the face corners of the derivatives of
+`arctan(uv/(wr))`, `log(r − v)`, `log(r − u)` (`rectJac`; `Lu … Nw` of Lemmas/CuboidDiv.lean).  Its
+trace and its antisymmetric part vanish. -/
+theorem cuboid_partials (dim pol p : V3 ℝ) (hdx : 0 < dim.x) (hdy : 0 < dim.y) (hdz : 0 < dim.z)
+    (hx : |p.x| ≠ dim.x / 2) (hy : |p.y| ≠ dim.y / 2) (hz : |p.z| ≠ dim.z / 2) :
+    HasPartials (cuboidB dim pol) p (coulombJac dim pol p) ∧ jacDiv (coulombJac dim pol p) = 0 ∧
+      jacCurl (coulombJac dim pol p) = ⟨0, 0, 0⟩ :=
+  ⟨cuboidB_hasPartials dim pol p hdx hdy hdz (offP_of_abs hdx hdy hdz hx hy hz), coulombJac_div dim pol p,
+    coulombJac_curl dim pol p⟩
+
+open MagpyVerif.CuboidDiv MagpyVerif.RectCharge in
+/-- non-vacuity: the vanishing of the divergence is not trivial — for the 2×2×2 cube polarized along z
+the single partial ∂Bz/∂z on the axis at (0,0,3) is `(8/(17√18) − 8/(5√6))/(4π) < 0` -/
+example : HasDerivAt (fun t => (cuboidB (⟨2, 2, 2⟩ : V3 ℝ) ⟨0, 0, 1⟩ ⟨0, 0, t⟩).z)
+    (coulombJac (⟨2, 2, 2⟩ : V3 ℝ) ⟨0, 0, 1⟩ ⟨0, 0, 3⟩).r3.z 3 ∧
+    (coulombJac (⟨2, 2, 2⟩ : V3 ℝ) ⟨0, 0, 1⟩ ⟨0, 0, 3⟩).r3.z < 0 := by
+  refine ⟨(cuboid_partials (⟨2, 2, 2⟩ : V3 ℝ) ⟨0, 0, 1⟩ ⟨0, 0, 3⟩ (by norm_num) (by norm_num) (by norm_num)
+    (by norm_num) (by norm_num) (by norm_num [abs_of_pos])).1.zz, ?_⟩
+  have e1 : ∀ u v w : ℝ, rr (-u) v w = rr u v w := by intro u v w; unfold rr; rw [neg_sq]
+  have e2 : ∀ u v w : ℝ, rr u (-v) w = rr u v w := by intro u v w; unfold rr; rw [neg_sq]
+  have ha := rr_pos (show (2 : ℝ) ≠ 0 by norm_num) 1 1
+  have hb := rr_pos (show (4 : ℝ) ≠ 0 by norm_num) 1 1
+  have ha2 := rr_sq 1 1 2
+  have hb2 := rr_sq 1 1 4
+  simp only [coulombJac, jacScale, jacAdd, jacCyc, jacSwp, rectJac, vs, V3.add_z, d2, Nw, Nu, Nv, Lw, Mw]
+  norm_num
+  simp only [e1, e2]
+  generalize rr 1 1 2 = a at *
+  generalize rr 1 1 4 = b at *
+  have hab : a < b := by nlinarith
+  have hinv : b⁻¹ < a⁻¹ := (inv_lt_inv₀ hb ha).mpr hab
+  have hbi : 0 < b⁻¹ := inv_pos.mpr hb
+  apply mul_neg_of_pos_of_neg (by positivity)
+  have : (-1 : ℝ) / (5 * a) = -(1 / 5) * a⁻¹ := by field_simp
+  have : (-1 : ℝ) / (17 * b) = -(1 / 17) * b⁻¹ := by field_simp
+  simp only [*]
+  nlinarith
+
+open MagpyVerif.CuboidDiv MagpyVerif.CuboidCoulomb in
+/-- C14 (Cuboid, local form of Ampère's law without currents).  H = (B − J·1_inside)/μ₀, with B the
+model of `magnet_cuboid_Bfield` and the geometric interior as the inside mask, has at every observer
+off the six face planes (inside and outside) all six mixed partial derivatives, and
+∂Hz/∂y − ∂Hy/∂z = 0, ∂Hx/∂z − ∂Hz/∂x = 0, ∂Hy/∂x − ∂Hx/∂y = 0. -/
+theorem cuboid_H_curl_free (dim pol p : V3 ℝ) (hdx : 0 < dim.x) (hdy : 0 < dim.y) (hdz : 0 < dim.z)
+    (hx : |p.x| ≠ dim.x / 2) (hy : |p.y| ≠ dim.y / 2) (hz : |p.z| ≠ dim.z / 2) :
+    CurlFreeAt (fun q => vd (cuboidB dim pol q -
+      (if |q.x| < dim.x / 2 ∧ |q.y| < dim.y / 2 ∧ |q.z| < dim.z / 2 then pol else ⟨0, 0, 0⟩)) mu0R) p :=
+  (cuboidHfield_dcfree dim pol p hdx hdy hdz (offP_of_abs hdx hdy hdz hx hy hz)).curlFreeAt
+
+open MagpyVerif.CuboidDiv MagpyVerif.CuboidCoulomb in
+/-- C14 (Cuboid): off the six face planes all four local laws hold — div B = 0, curl H = 0 and also
+div H = 0, curl B = 0 (there are neither magnetic charges nor currents off the surface; the
+polarization is constant inside). -/
+theorem cuboid_div_curl_free (dim pol p : V3 ℝ) (hdx : 0 < dim.x) (hdy : 0 < dim.y) (hdz : 0 < dim.z)
+    (hx : |p.x| ≠ dim.x / 2) (hy : |p.y| ≠ dim.y / 2) (hz : |p.z| ≠ dim.z / 2) :
+    DivFreeAt (cuboidB dim pol) p ∧ CurlFreeAt (cuboidHfield dim pol) p ∧
+    DivFreeAt (cuboidHfield dim pol) p ∧ CurlFreeAt (cuboidB dim pol) p :=
+  have hoff := offP_of_abs hdx hdy hdz hx hy hz
+  ⟨(cuboidB_dcfree dim pol p hdx hdy hdz hoff).divFreeAt, (cuboidHfield_dcfree dim pol p hdx hdy hdz hoff).curlFreeAt,
+   (cuboidHfield_dcfree dim pol p hdx hdy hdz hoff).divFreeAt, (cuboidB_dcfree dim pol p hdx hdy hdz hoff).curlFreeAt⟩
+
+open MagpyVerif.CuboidDiv in
+/-- outside the magnet, where H = B/μ₀: curl (B/μ₀) = 0 -/
+theorem cuboid_curl_free_outside (dim pol p : V3 ℝ) (hdx : 0 < dim.x) (hdy : 0 < dim.y) (hdz : 0 < dim.z)
+    (hx : |p.x| ≠ dim.x / 2) (hy : |p.y| ≠ dim.y / 2) (hz : |p.z| ≠ dim.z / 2) :
+    CurlFreeAt (fun q => vd (cuboidB dim pol q) mu0R) p :=
+  ((cuboidB_dcfree dim pol p hdx hdy hdz (offP_of_abs hdx hdy hdz hx hy hz)).vd mu0R).curlFreeAt
+
+-- non-vacuity: outside in a reflected octant, and strictly inside
+example : CurlFreeAt (fun q => vd (cuboidB (⟨1, 2, 3⟩ : V3 ℝ) ⟨1, -2, 3⟩ q -
+    (if |q.x| < (1 : ℝ) / 2 ∧ |q.y| < (2 : ℝ) / 2 ∧ |q.z| < (3 : ℝ) / 2 then ⟨1, -2, 3⟩ else ⟨0, 0, 0⟩)) mu0R)
+    ⟨-3, 1 / 2, 5⟩ := by
+  apply cuboid_H_curl_free (⟨1, 2, 3⟩ : V3 ℝ) <;> norm_num [abs_of_pos, abs_of_neg]
+example : CurlFreeAt (fun q => vd (cuboidB (⟨1, 2, 3⟩ : V3 ℝ) ⟨1, -2, 3⟩ q -
+    (if |q.x| < (1 : ℝ) / 2 ∧ |q.y| < (2 : ℝ) / 2 ∧ |q.z| < (3 : ℝ) / 2 then ⟨1, -2, 3⟩ else ⟨0, 0, 0⟩)) mu0R)
+    ⟨1 / 4, 1 / 3, -1 / 4⟩ := by
+  apply cuboid_H_curl_free (⟨1, 2, 3⟩ : V3 ℝ) <;> norm_num [abs_of_pos, abs_of_neg]
+
+open MagpyVerif.CuboidDiv MagpyVerif.CuboidCoulomb in
+/-- C14 (Cuboid wrapper, the `BHJM_magnet_cuboid` row).  For positive side lengths, **every**
+polarization (zero included) and every observer strictly outside the three thin shells
+`| |p_i| − dim_i/2 | ≤ 1e-15·dim_i/2` in which the wrapper switches to its surface / edge special
+cases: what the wrapper returns for `field="B"` is divergence-free and what it returns for
+`field="H"` is curl-free there (masks, general branch, closed form and the subtraction of `J` under the
+tolerance-based inside mask included); also div H = 0 and curl B = 0.  The shell hypotheses are strict
+because at `|p_i| − dim_i/2 = +1e-15·dim_i/2` exactly the inside mask of the code flips and H jumps. -/
+theorem cuboid_wrapper_div_curl_free (dim pol p : V3 ℝ) (hdx : 0 < dim.x) (hdy : 0 < dim.y) (hdz : 0 < dim.z)
+    (hx : rtol * (dim.x / 2) < |(|p.x| - dim.x / 2)|) (hy : rtol * (dim.y / 2) < |(|p.y| - dim.y / 2)|)
+    (hz : rtol * (dim.z / 2) < |(|p.z| - dim.z / 2)|) :
+    DivFreeAt (bhjmCuboid .B dim pol) p ∧ CurlFreeAt (bhjmCuboid .H dim pol) p ∧
+    DivFreeAt (bhjmCuboid .H dim pol) p ∧ CurlFreeAt (bhjmCuboid .B dim pol) p := by
+  have hs : ShellOut dim p := ⟨hx, hy, hz⟩
+  have hoff := hs.offP hdx hdy hdz
+  have hG := coulombG_dcfree dim pol p hoff
+  have hB : DCFree (bhjmCuboid .B dim pol) p := by
+    refine (hG.add_const (if insideP dim p then pol else ⟨0, 0, 0⟩)).congr_goodS hoff hs ?_
+    intro q hq
+    obtain ⟨hsq, hoq, hin⟩ := hq
+    rw [(C01.cuboid_wrapper_is_coulomb_integral dim pol q hdx hdy hdz hsq.1.le hsq.2.1.le hsq.2.2.le).2,
+      coulombB_eq_G dim pol q hoq]
+    by_cases hi : insideP dim p
+    · have hq' : |q.x| < dim.x / 2 ∧ |q.y| < dim.y / 2 ∧ |q.z| < dim.z / 2 := hin.mpr hi
+      rw [if_pos hi, if_pos hq']
+    · have hq' : ¬ (|q.x| < dim.x / 2 ∧ |q.y| < dim.y / 2 ∧ |q.z| < dim.z / 2) := fun h => hi (hin.mp h)
+      rw [if_neg hi, if_neg hq']
+  have hH : DCFree (bhjmCuboid .H dim pol) p := by
+    refine (hG.vd mu0R).congr_goodS hoff hs ?_
+    intro q hq
+    obtain ⟨hsq, hoq, -⟩ := hq
+    rw [(C01.cuboid_wrapper_is_coulomb_integral dim pol q hdx hdy hdz hsq.1.le hsq.2.1.le hsq.2.2.le).1,
+      coulombB_eq_G dim pol q hoq]
+  exact ⟨hB.divFreeAt, hH.curlFreeAt, hH.divFreeAt, hB.curlFreeAt⟩
+
+-- non-vacuity: the shell hypotheses hold far outside, in another octant, and strictly inside
+open MagpyVerif.CuboidCoulomb in
+example : DivFreeAt (bhjmCuboid .B (⟨1, 2, 3⟩ : V3 ℝ) ⟨1, -2, 3⟩) ⟨-3, 1 / 2, 5⟩ ∧
+    CurlFreeAt (bhjmCuboid .H (⟨1, 2, 3⟩ : V3 ℝ) ⟨1, -2, 3⟩) ⟨-3, 1 / 2, 5⟩ := by
+  have h := cuboid_wrapper_div_curl_free (⟨1, 2, 3⟩ : V3 ℝ) ⟨1, -2, 3⟩ ⟨-3, 1 / 2, 5⟩
+    (by norm_num) (by norm_num) (by norm_num)
+    (by unfold rtol; norm_num [abs_of_pos, abs_of_neg]) (by unfold rtol; norm_num [abs_of_pos, abs_of_neg])
+    (by unfold rtol; norm_num [abs_of_pos, abs_of_neg])
+  exact ⟨h.1, h.2.1⟩
+open MagpyVerif.CuboidCoulomb in
+example : DivFreeAt (bhjmCuboid .B (⟨1, 2, 3⟩ : V3 ℝ) ⟨1, -2, 3⟩) ⟨1 / 4, 1 / 3, -1 / 4⟩ ∧
+    CurlFreeAt (bhjmCuboid .H (⟨1, 2, 3⟩ : V3 ℝ) ⟨1, -2, 3⟩) ⟨1 / 4, 1 / 3, -1 / 4⟩ := by
+  have h := cuboid_wrapper_div_curl_free (⟨1, 2, 3⟩ : V3 ℝ) ⟨1, -2, 3⟩ ⟨1 / 4, 1 / 3, -1 / 4⟩
+    (by norm_num) (by norm_num) (by norm_num)
+    (by unfold rtol; norm_num [abs_of_pos, abs_of_neg]) (by unfold rtol; norm_num [abs_of_pos, abs_of_neg])
+    (by unfold rtol; norm_num [abs_of_pos, abs_of_neg])
+  exact ⟨h.1, h.2.1⟩
 
 end MagpyVerif.C14
